@@ -43,6 +43,7 @@ func (s *Server) jsonResponse(w http.ResponseWriter, message interface{}, code i
 	if err != nil {
 		http.Error(w, fmt.Sprintf("{message: \"%s\"}", err), http.StatusInternalServerError)
 		slog.Error(err.Error())
+		return
 	}
 	w.Header().Set("Content-Type", "application/json")
 	w.WriteHeader(code)
